@@ -82,7 +82,7 @@ def run(ctx: core.Ctx):
     api_cmds = typed_api_commands(T, rng)
     ctx.cov["typed_api_commands"] = len(api_cmds)
     disagreements = []
-    nrand = 20000 if thorough else 1500
+    nrand = 200000 if thorough else 1500
     stores = [(os.path.basename(p), p, None) for p in srv.recordings()]
     stores.append(("(minimal built-in store)", None, [("SYS", "MODELNAME", "ModelName"), ("SYS", "VERSION", "Version"), ("MAIN", "AVAIL", "Not ready"), ("MAIN", "VOL", "0.0"),
                                                       ("MAIN", "ZONENAME", "MainZone"), ("ZONE2", "AVAIL", "Not ready"), ("ZONE2", "ZONENAME", "Zone2Name")]))
